@@ -8,6 +8,7 @@ import (
 	"slices"
 	"strings"
 	"sync"
+	"sync/atomic"
 	"time"
 
 	"github.com/miekg/dns"
@@ -51,6 +52,13 @@ const (
 	// Replaces the previous !w.Internal() guard, which allowed
 	// at most one level of chasing.
 	maxCnameChaseDepth = 10
+
+	// maxCnameChaseHops bounds the alias hops chased for one request
+	// tree, summed over every nested additionalAnswer invocation. The
+	// per-invocation hop counter and maxCnameChaseDepth bound the loop
+	// and the nesting separately, so on a chain that never repeats they
+	// multiply (10 hops at each of 10 levels) instead of bounding it.
+	maxCnameChaseHops = 32
 )
 
 // cnameChaseDepthKeyType tags ctx with the current CNAME-chase
@@ -67,6 +75,23 @@ func cnameChaseDepth(ctx context.Context) int {
 
 func withCnameChaseDepth(ctx context.Context, depth int) context.Context {
 	return context.WithValue(ctx, cnameChaseDepthKey, depth)
+}
+
+// cnameChaseHopsKeyType tags ctx with the hop budget shared by every
+// additionalAnswer invocation below the one that created it.
+type cnameChaseHopsKeyType struct{}
+
+var cnameChaseHopsKey = &cnameChaseHopsKeyType{}
+
+// cnameChaseHops returns the request tree's remaining-hops counter,
+// creating it on the outermost chase.
+func cnameChaseHops(ctx context.Context) (context.Context, *atomic.Int32) {
+	if hops, ok := ctx.Value(cnameChaseHopsKey).(*atomic.Int32); ok {
+		return ctx, hops
+	}
+	hops := new(atomic.Int32)
+	hops.Store(maxCnameChaseHops)
+	return context.WithValue(ctx, cnameChaseHopsKey, hops), hops
 }
 
 // sharedDenialBypassKey pins raw ECS and incoming CD=1 to the whole request
@@ -1951,10 +1976,18 @@ func (c *Cache) additionalAnswer(ctx context.Context, msg *dns.Msg) *dns.Msg {
 	targets := []string{}
 
 	if len(cnameReq.Question) > 0 {
+		var hops *atomic.Int32
+		ctx, hops = cnameChaseHops(ctx)
 	lookup:
 		child := false
 		target := cnameReq.Question[0].Name
 		cnameReq.RecursionDesired = true
+
+		// One budget for the whole tree of nested chases: an alias chain
+		// that never repeats is otherwise ended only by the deadline.
+		if hops.Add(-1) < 0 {
+			return dnsutil.SetRcode(msg, dns.RcodeServerFailure, false)
+		}
 
 		// Check for loops
 		if slices.Contains(targets, target) {
